@@ -122,6 +122,10 @@ type Rec struct {
 	TCPState          string
 	Stat              [8]uint64
 	OmitPolicyActions bool
+	// AltOrder: the exporter of this record lists its elements in another order
+	// (pod names and namespaces of source and destination swapped in position,
+	// the statistics first): templates of different nodes need not agree
+	AltOrder bool
 }
 
 func ie(name string, ent uint32) *entities.InfoElement {
@@ -198,6 +202,18 @@ func Elements(r Rec) []entities.InfoElementWithValue {
 			ent = registry.IANAReversedEnterpriseID
 		}
 		els = append(els, entities.NewUnsigned64InfoElement(ie(name, ent), r.Stat[i]))
+	}
+	if r.AltOrder {
+		pos := map[string]int{}
+		for i, e := range els {
+			pos[e.GetInfoElement().Name] = i
+		}
+		swap := func(a, b string) { els[pos[a]], els[pos[b]] = els[pos[b]], els[pos[a]] }
+		swap("sourcePodName", "destinationPodName")
+		swap("sourcePodNamespace", "destinationNodeName")
+		swap("destinationClusterIPv4", "tcpState")
+		swap("destinationServicePort", "flowEndReason")
+		swap("ingressNetworkPolicyRulePriority", "flowType")
 	}
 	return els
 }
